@@ -324,6 +324,75 @@ def ev_ptadvance(case):
 EVALUATORS = {"advance": ev_advance, "pool": ev_pool, "realpool": ev_realpool, "runfor": ev_runfor, "ptadvance": ev_ptadvance}
 
 
+_PT = {"clock": None, "cost": 0.0}
+
+
+def _pt_slow_post(t):
+    # module-level (the chains that carry it are pickled by return_chains)
+    _PT["clock"].t += _PT["cost"]
+    _PT["clock"].reads_since_step = 0
+    return post(t)
+
+
+def ev_ptrunfor(case):
+    """ParallelTempering.run_for under the virtual clock (module-global time() of inference.mcmc.parallel replaced), workers as
+    fake processes under the serial schedule: it terminates, returns only once the budget is used, and every chain has been
+    advanced by the same whole number of swap intervals."""
+    import inference.mcmc.parallel as PAR
+    from mc.sched import run_serial_schedule
+
+    N, cost, budget, si = case["N"], case["cost"], case["budget_s"], case["swap_interval"]
+    clock = Clock()
+    fails = []
+
+    _PT["clock"], _PT["cost"] = clock, cost
+    slow_post = _pt_slow_post
+
+    def parent(PARm, out):
+        from inference.mcmc import GibbsChain
+
+        chains = []
+        for i in range(N):
+            c = GibbsChain(posterior=slow_post, start=np.array([0.3 + 0.2 * i]), widths=np.array([0.8]), temperature=1.0 + i, display_progress=True)
+            c.rng = np.random.default_rng(40 + i)
+            c.params[0].rng = np.random.default_rng(400 + i)
+            chains.append(c)
+        pt = PARm.ParallelTempering(chains)
+        pt.rng = np.random.default_rng(7)
+        t0 = clock.t
+        kw = {"minutes": budget / 60.0}
+        pt.run_for(swap_interval=si, **kw)
+        out["elapsed"] = clock.t - t0
+        ch = pt.return_chains()
+        pt.shutdown()
+        out["len"] = [c.chain_length for c in ch]
+
+    saved = PAR.time
+    PAR.time = clock
+    try:
+        try:
+            out, done, excs = run_serial_schedule(parent)
+        except Spin:
+            return {"fails": [fail("ptrun_for/spins-without-stepping", f"10000 clock readings without a posterior evaluation (cost {cost}, budget {budget})", config=case)], "n": 1}
+    finally:
+        PAR.time = saved
+    for e in excs.values():
+        if isinstance(e, HarnessError):
+            raise e
+    if excs or not done:
+        return {"fails": [fail("ptrun_for/raises-or-blocks", "; ".join(f"{k}: {type(e).__name__}: {e}" for k, e in excs.items())[:400] or "blocked", config=case)], "n": 1}
+    L = out["len"]
+    if len(set(L)) != 1 or (L[0] - 1) % si != 0 or L[0] <= 1:
+        fails.append(fail("ptrun_for/chains-not-advanced-by-the-same-whole-number-of-swap-intervals", f"lengths {L}, swap_interval {si}", config=case))
+    if out["elapsed"] < budget:
+        fails.append(fail("ptrun_for/returns-before-budget-used", f"{out['elapsed']:.4g}s of {budget}s", config=case))
+    return {"fails": fails, "n": 1, "states": 1, "transitions": int(sum(L)), "tags": {f"ptrun_for:N={N}:cost={'>1s' if cost * si >= 1 else '<1s'}-per-cycle:cycles={'1' if L[0] - 1 == si else 'many'}"},
+            "sample": {"config": case, "lengths": L, "elapsed": out["elapsed"]}}
+
+
+EVALUATORS["ptrunfor"] = ev_ptrunfor
+
+
 def run(ck):
     q = ck.quick
     ac = []
@@ -371,6 +440,8 @@ def run(ck):
     res = ck.run_cases("runfor", rc)
     # differential oracle: with a constant cost per step the number of steps of a timed run is a function of the clock only,
     # so a chain with a long history must take exactly as many steps as a fresh one
+    ck.run_cases("ptrunfor", [dict(N=N, cost=c, budget_s=b, swap_interval=si) for N in (1, 2, 3) for c in (0.004, 0.3, 5.0) for b, si in ((12.0, 3), (90.0, 10), (1.0, 1))
+                              if b / c < 30000])
     hc = []
     for kind in ("GibbsChain", "HamiltonianChain"):
         for c, budget in (([2.0], 60.0), ([0.1], 60.0), ([30.0], 3600.0), ([0.013], 1.0)):
